@@ -79,12 +79,16 @@ def run_history(md, ext, src, top, path, ops, crash=None):
     clean(path)
     flags = []
 
+    alive = []          # the file object must outlive child(): dropping the last reference closes the file, which is not a crash
+
     def child():
         f = md.open(path, "w")
+        alive.append(f)
         fl = []
         for op in ops:
             if op[0] == "f":
-                f.flush()
+                if hasattr(f, "flush"):
+                    f.flush()                                 # DCD has no flush(): its writes are unbuffered, a returned write is on disk
             else:
                 try:
                     do_write(ext, f, src, op[1], op[2], op[3], op[4])
@@ -165,7 +169,7 @@ def run(ctx):
     import mdtraj as md
     ctx.rule = ("(1) every ordered partition of n frames into consecutive write calls, per streaming format, with and without cell/time; "
                 "(2) random write/flush histories with ragged attempts (atom count, adding/dropping cell or time) at every position; "
-                "(3) kill experiments (os._exit and SIGKILL in a child process) after write+flush for h5, nc, xtc; "
+                "(3) kill experiments (os._exit and SIGKILL in a child process) after write+flush for h5, nc, xtc and after write for dcd (unbuffered, no flush()); "
                 "non-trivial = distinct (format, history) with at least two writes")
     ctx.assumptions += ["what HDF5/netCDF/stdio/the kernel persist at a kill is observed, not proved; DCD and TRR have no flush()",
                         "xtc/trr accept a write without time and fill 0,1,2,... (documented): not treated as ragged",
@@ -263,10 +267,10 @@ def run(ctx):
                 ctx.broke("correspondence:writer-history", ".%s history %s: impl %s, model close=%s acc=%s" % (ext, rp["ops"], got, mc, macc))
 
     # ---- (3) kill experiments
-    for ext in sorted(HAS_FLUSH):
+    for ext in sorted(HAS_FLUSH | {"dcd"}):                       # the four formats the property names for live simulation output
         for mode in ("exit", "kill"):
             for _ in range(ctx.n(3, 12)):
-                k = rng.randrange(1, 4)
+                k = rng.randrange(1, 5)
                 ops, nxt = [], 0
                 for _i in range(k):
                     sz = rng.randrange(1, 3)
